@@ -1,8 +1,10 @@
 package main
 
 import (
+	"encoding/binary"
 	"errors"
 	"fmt"
+	"hash/crc32"
 	"io"
 	"os"
 	"path/filepath"
@@ -186,3 +188,15 @@ func writeBytesFile(dir, name string, b []byte) string {
 }
 
 var _ = fmt.Sprint
+
+// recImage: the bytes of one complete version-4 record of an uncompressed file holding payload p
+// (marker, nil flag 0, length, compressed length 0, header checksum, payload)
+func recImage(p []byte) []byte {
+	h := []byte{0x91, 0x8d, 0x4c, 0x00}
+	var buf [10]byte
+	h = append(h, buf[:binary.PutUvarint(buf[:], uint64(len(p)))]...)
+	h = append(h, 0x00)
+	crc := crc32.Checksum(h, crc32.MakeTable(crc32.Castagnoli))
+	h = append(h, buf[:binary.PutUvarint(buf[:], uint64(crc))]...)
+	return append(h, p...)
+}
